@@ -435,6 +435,22 @@ def fresh_elements(prog, chk, rid, min_instances=5):
                     # declared outside the loop: members assigned unconditionally per iteration
                     assigned = set()
                     top = children(body) if body.get('kind') == 'CompoundStmt' else [body]
+                    # ... or the whole object re-assigned at the top level of the body (`x = T{};`)
+                    whole = False
+                    for st in top:
+                        y = strip(st)
+                        lhs = None
+                        if y.get('kind') == 'BinaryOperator' and y.get('opcode') == '=':
+                            lhs = strip(children(y)[0])
+                        elif y.get('kind') == 'CXXOperatorCallExpr' and len(children(y)) > 2 and \
+                                (strip(children(y)[0]).get('referencedDecl') or {}).get('name') == 'operator=':
+                            lhs = strip(children(y)[1])
+                        if lhs is not None and lhs.get('kind') == 'DeclRefExpr' and \
+                                (lhs.get('referencedDecl') or {}).get('id') == vid:
+                            whole = True
+                    if whole:
+                        chk.ok(rid, inst + ' (declared outside the loop, re-assigned as a whole in each iteration)', locstr(x))
+                        continue
                     for st in top:
                         if st.get('kind') in ('IfStmt', 'ForStmt', 'WhileStmt', 'DoStmt', 'SwitchStmt', 'CXXTryStmt'):
                             continue
